@@ -63,9 +63,9 @@ def float_phase(tier, wd):
     fdir = os.path.join(C.VERIF, "oracle", "c20f")
     ora = os.path.join(C.WORK, "c20foracle" + C.RTAG)
     with C.Lock("build"):
-        srcs = [os.path.join(C.COQ, "GridFloat.v"), os.path.join(fdir, "driver.ml"), os.path.join(fdir, "ExtractGridFloat.v"), os.path.join(fdir, "build.sh")]
-        if not os.path.exists(os.path.join(C.COQ, "GridFloat.vo")):
-            res["error"] = "coq/GridFloat.v does not compile"; return res
+        srcs = [os.path.join(C.COQ, "GridFloat.v"), os.path.join(C.COQ, "GridFloat2.v"), os.path.join(fdir, "driver.ml"), os.path.join(fdir, "ExtractGridFloat.v"), os.path.join(fdir, "build.sh")]
+        if not os.path.exists(os.path.join(C.COQ, "GridFloat.vo")) or not os.path.exists(os.path.join(C.COQ, "GridFloat2.vo")):
+            res["error"] = "coq/GridFloat.v / GridFloat2.v does not compile"; return res
         if not os.path.exists(ora) or os.path.getmtime(ora) < max(os.path.getmtime(p) for p in srcs):
             with C.GlobalLock("oracle"):
                 rc, out = C.sh(["sh", os.path.join(fdir, "build.sh"), C.COQ], timeout=900)
@@ -74,7 +74,7 @@ def float_phase(tier, wd):
                 shutil.copy2(os.path.join(fdir, "oracle"), ora)
         ok, log, hbin = C.build_harness("c20f")
     if not ok:
-        res["error"] = "harness/c20f no longer fits the exported API of modules/dagaz (NewVector3f, Dot, Cross, ToProtobuf): " + log[-400:]; return res
+        res["error"] = "harness/c20f no longer fits the API of modules/dagaz (NewVector3f, Dot, Cross, ToProtobuf, Quad, Ray, IntersectQuad; VerifNormal / VerifOverlap of the add-only hook): " + log[-400:]; return res
     lp = os.path.join(wd, "float.lines")
     rc, out = C.sh("%s %d %d > %s" % (hbin, C.seed() * 13 + 20, 4000 if tier == "quick" else 60000, lp), timeout=600)
     if rc != 0:
@@ -372,7 +372,7 @@ def run(tier, replay_path=None):
     if fl["error"]:
         tie_broken.append("float32 primitives: " + fl["error"])
     elif fl["bad"]:
-        tie_broken.append("float32 primitives: Vector3f.Dot / Cross differ bit-wise from coq/GridFloat.v dot32 / cross32 on %d of %d inputs; first: %s"
+        tie_broken.append("float32 primitives: Dot / Cross / calculateNormal / doHorizontalPlanesOverlap / IntersectQuad differ bit-wise from coq/GridFloat.v, GridFloat2.v (or contradict a conclusion of Properties/C20float2.v) on %d of %d inputs; first: %s"
                           % (fl["bad"], fl["records"], fl["first"]))
 
     if first_mm is not None:
@@ -385,6 +385,24 @@ def run(tier, replay_path=None):
         err = absorb(res)
         if err:
             print("INTERNAL: " + err); return 2
+    # 3b. the obligation about Init no longer checks: whether two participants of one session can end up with two grids is a
+    #     question about concurrent joins; the init storm of harness/c09 (fresh sessions, all members joining at once, real
+    #     threads) looks for a member bound to a grid that is not the session's
+    if tie_broken and not viol_reported and any("init_recreates_grid" in t for t in tie_broken):
+        from . import c09check
+        with C.Lock("build"):
+            okS, logS, sbin = C.build_harness("c09", race=True)
+        if okS:
+            r9 = c09check.run_campaign(sbin, C.seed(), 0, 0, "c20init", mode="initstorm", extra=["-trials", "3000"])
+            orph = (r9.get("report") or {}).get("orphaned_module_state") or []
+            totals["init_storm_trials"] = (r9.get("report") or {}).get("init_trials", 0)
+            dag = [o for o in orph if "dagaz" in o] or orph
+            if dag:
+                rp = C.write_replay(PID, "replay-C20-initstorm.json", {"property": PID, "kind": "orphaned-module-state", "what": dag[0],
+                                    "reproduce": r9["cmd"], "note": "real-thread schedule: rerun the command (concurrent first joins of a fresh session)",
+                                    "unchecked": tie_broken})
+                C.violation(PID, rp)
+                viol_reported = True
     if tie_broken and not viol_reported:
         body = "# unchecked: " + "\n# unchecked: ".join(tie_broken) + "\n# no input was found on which P_C20 fails on the implementation (corpus + %d generated histories)\n" % totals.get("histories", 0)
         if first_mm is not None and first_mm[0]:
@@ -412,7 +430,7 @@ def run(tier, replay_path=None):
             "harness/c20 (generator, dump of the exported fields of dagaz.RegularGrid, pointer -> insertion index by first appearance) and the add-only hook hooks/modules__dagaz__grid_verif.go (re-exports doHorizontalPlanesOverlap, calculateNormal)",
             "modelled, not verified: float32 arithmetic of modules/dagaz (the model is exact over Q; each step is compared from the implementation's own previous state, coordinates to 1e-4, decisions closer than 2^-10 to a boundary are counted as ill-conditioned and not compared); Min/Max modelled as integers; (uint) conversion of negative floats; the unbounded merge loop is cut at merge_fuel iterations (theorems hold for every fuel)",
             "theorem domain: horizontal quads with positive extents inside the 64 m box; P_C20 on implementation states uses a tolerance of 2^-13 m on cell overlap and bounds",
-            "float32 primitives (Properties/C20float.v): coq/GridFloat.v models Vector3f.Dot / Cross / Add / Sub / Mul bit for bit over Flocq's binary32 (round to nearest even, no fused multiply-add); the error-bound theorems are about real numbers and depend on the axioms the Coq standard library declares for Reals and that Flocq uses: ClassicalDedekindReals.sig_forall_dec, ClassicalDedekindReals.sig_not_dec, Classical_Prop.classic, FunctionalExtensionality.functional_extensionality_dep (none declared by this development); oracle/c20f (ExtrOcamlBasic extraction of GridFloat.v + driver.ml) compares bit patterns produced by the real code (harness/c20f) with dot32 / cross32, all NaNs identified",
+            "float32 primitives (Properties/C20float.v, C20float2.v): coq/GridFloat.v models Vector3f.Dot / Cross / Add / Sub / Mul, coq/GridFloat2.v models calculateNormal (binary64 products, sum, square root and quotient, rounded to binary32), doHorizontalPlanesOverlap and IntersectQuad, bit for bit over Flocq's binary32 / binary64 (round to nearest even, no fused multiply-add: true of amd64 at GOAMD64=v1; conversions between the formats built on binary_normalize, proved exact / correctly rounded); the error-bound theorems are about real numbers and depend on the axioms the Coq standard library declares for Reals and that Flocq uses: ClassicalDedekindReals.sig_forall_dec, ClassicalDedekindReals.sig_not_dec, Classical_Prop.classic, FunctionalExtensionality.functional_extensionality_dep (none declared by this development); oracle/c20f (ExtrOcamlBasic extraction of GridFloat.v + driver.ml) compares bit patterns produced by the real code (harness/c20f) with dot32 / cross32, all NaNs identified",
         ],
         "theorems": pinfo["theorems"], "examples": pinfo.get("examples", []),
         "traces_validated_against_impl": totals.get("histories", 0),
